@@ -2,11 +2,14 @@
 """Prints the prompt given to a sub-agent for one property (only the property text, nothing from /verif)."""
 import json, sys
 pid = sys.argv[1]
+suffix = sys.argv[2] if len(sys.argv) > 2 else ""
+avoid = sys.argv[3] if len(sys.argv) > 3 else ""
 for line in open('/verif/properties.jsonl'):
     p = json.loads(line)
     if p['id'] == pid:
         break
-wt = f"/tmp/wt-{pid}"
+wt = f"/tmp/wt-{pid}{suffix}"
+avoid_text = (f"\n\nA colleague has already produced one such change: {avoid}. Yours must use a DIFFERENT code site and a different mechanism (ideally it breaks a different clause of the property, or the same clause through a different component).") if avoid else ""
 print(f"""You are working alone in a scratch git worktree of the open-source project mutagen (a Go file-synchronization and network-forwarding tool) at {wt}. Work ONLY inside {wt} (never touch /repo or /verif, and do not read anything under /verif).
 
 Environment: every shell call needs `export GOFLAGS=-mod=mod GOPROXY=off; unset GOSUMDB GOTOOLCHAIN` (there is no network; all modules and the go1.25.0 toolchain are cached; setting GOSUMDB=off or GOTOOLCHAIN=local breaks the toolchain selection). Use the default `go` command from inside {wt}. The code you care about is under {wt}/pkg. Files/lines mentioning the build tag `verif` or the package pkg/verif are inert instrumentation hooks: leave them alone.
@@ -20,7 +23,7 @@ Here is a semantic property of mutagen that currently holds:
 YOUR TASK: produce a realistic change (a plausible regression or subtle bug, the kind a refactoring or an optimisation could introduce) to mutagen's non-test source code that BREAKS this property, while
   (1) the code still compiles: `cd {wt} && go build ./...`
   (2) the existing test suite still passes for the packages you touched and their dependents (at least: `cd {wt} && go test -mod=mod -vet=off -count=1 ./pkg/...` must not have new failures; note that on the untouched tree exactly these tests already fail and may be ignored: pkg/agent TestExecutableForPlatform*, pkg/synchronization/core TestScan and TestTransition),
-  (3) the break needs something SPECIFIC to manifest - a particular interleaving, a crash or fault at a particular point, a multi-step sequence of operations, an unusual input, or two cooperating code sites that each look fine alone - NOT something that ordinary use or the simplest input would expose at once.
+  (3) the break needs something SPECIFIC to manifest - a particular interleaving, a crash or fault at a particular point, a multi-step sequence of operations, an unusual input, or two cooperating code sites that each look fine alone - NOT something that ordinary use or the simplest input would expose at once.{avoid_text}
 
 Also write a DEMONSTRATION: a Go test file (or small Go program) inside the worktree that FAILS (or prints a clear failure) with your change applied and PASSES without it. Verify both directions yourself (toggle your source change with `git diff > patch.diff; git apply -R patch.diff` and `git apply patch.diff`, keeping the demo; do NOT use `git stash`: the stash list is shared with other worktrees of the same repository that other people are using right now).
 
